@@ -340,6 +340,18 @@ void vf::run_case(Src &s, Ctx &c)
         {
             P->pdef->clearSolutionPaths();
             dropped = true;
+            // Only a planner that keeps an incumbent across solve() calls (the mechanism the statement names: RRT* bestCost_, BIT*, AIT*, EIT*
+            // updateExactSolution) can be held to "not worse than before" once the caller has emptied the solution list; a roadmap planner
+            // answers each call with a path it finds then, and the list that would have kept the better one first is gone. (A first version
+            // compared for every planner: at five times the quick case count LazyPRM* - two start states, mechanical work - reported its
+            // second-best path after the list was dropped. That was the harness demanding more than the statement.)
+            static const char *incumbent[] = {"RRTstar", "InformedRRTstar", "SORRTstar", "BITstar", "ABITstar", "AITstar", "EITstar", "EIRMstar"};
+            bool keeps = false;
+            for (auto *n : incumbent)
+                if (std::string(pi.name) == n)
+                    keeps = true;
+            if (!keeps)
+                haveBest = false;
             c.count("history:clearSolutionPaths-before-continued-solve");
             c.note("clearSolutionPaths\n");
         }
